@@ -129,3 +129,89 @@ def scaling_witnesses(polys, dval, seed, names=("X", "Y", "Z", "T"), points=None
     return out
 
 
+
+
+def pair_witnesses(polys, dval, seed, names1=("X1", "Y1", "Z1", "T1"), names2=("X2", "Y2", "Z2", "T2"), points=None, limit=24):
+    """pairs of DISTINCT valid points (affine) on which a polynomial that a comparison path tests vanishes: the first point is
+    taken from the bank, the second is the unknown (x, y) on the curve.  With x^2 = N/D (N = y^2 - 1, D = d*y^2 + 1) every
+    tested polynomial g(x, y) becomes A(y) + x*B(y) (after clearing D); a common zero with the curve has A^2*D - B^2*N = 0,
+    a univariate polynomial whose roots in GF(p) are computed exactly; x follows from -A/B (or from the curve when B = 0).
+    These are the pairs on which a comparison that tests the wrong quantity answers 'equal' for different points."""
+    import random
+    from sym.poly import var_index
+    rng = random.Random(seed)
+    P = ref.P
+    xi, yi = var_index("wx"), var_index("wy")
+    wx, wy = Poly.var("wx"), Poly.var("wy")
+    pts = list(points) if points is not None else [q for q in ptreplay.bank(rng, 8)][:12]
+    N = [P - 1, 0, 1]
+    D = [1, 0, dval % P]
+
+    def ppow(a, e):
+        r = [1]
+        for _ in range(e):
+            r = _pmul(r, a, P)
+        return r
+
+    def padd(a, b):
+        n = max(len(a), len(b))
+        return _pmod([((a[i] if i < len(a) else 0) + (b[i] if i < len(b) else 0)) % P for i in range(n)], P)
+
+    def peval(a, v):
+        t = 0
+        for c in reversed(a):
+            t = (t * v + c) % P
+        return t
+    out = []
+    for (x1, y1) in pts:
+        sub = {names1[0]: Poly.const(x1 % P), names1[1]: Poly.const(y1 % P), names1[2]: Poly.const(1), names1[3]: Poly.const(x1 * y1 % P),
+               names2[0]: wx, names2[1]: wy, names2[2]: Poly.const(1), names2[3]: wx * wy, "d": Poly.const(dval % P)}
+        for g in polys:
+            q = g.subs(sub)
+            byx = {}
+            ok = True
+            for m, c in q.t.items():
+                ex_, ey_ = 0, 0
+                for v_, e_ in m:
+                    if v_ == xi:
+                        ex_ = e_
+                    elif v_ == yi:
+                        ey_ = e_
+                    else:
+                        ok = False
+                co = byx.setdefault(ex_, {})
+                co[ey_] = (co.get(ey_, 0) + c) % P
+            if not ok or not byx:
+                continue
+            M = max(byx) // 2 + 1
+            A, B = [0], [0]
+            for j, co in byx.items():
+                gj = [co.get(i, 0) for i in range(max(co) + 1)]
+                term = _pmul(_pmul(gj, ppow(N, j // 2), P), ppow(D, M - j // 2), P)
+                if j % 2 == 0:
+                    A = padd(A, term)
+                else:
+                    B = padd(B, term)
+            R = padd(_pmul(_pmul(A, A, P), D, P), [(-c) % P for c in _pmul(_pmul(B, B, P), N, P)])
+            R = _pmod(R, P)
+            if len(R) <= 1 or len(R) > 40:
+                continue
+            for y0 in roots_mod_p(R, rng):
+                b0, a0 = peval(B, y0), peval(A, y0)
+                d0 = peval(D, y0)
+                if d0 == 0:
+                    continue
+                cands = []
+                if b0:
+                    cands.append((-a0) * pow(b0, P - 2, P) % P)
+                else:
+                    r2 = peval(N, y0) * pow(d0, P - 2, P) % P
+                    s = ref.sqrt(r2)
+                    if s is not None:
+                        cands += [s, (-s) % P]
+                for x0 in cands:
+                    if ref.ed_on_curve((x0, y0)) and (x0, y0) != (x1 % P, y1 % P) and q.eval_mod({"wx": x0, "wy": y0}, P) == 0:
+                        out.append(((x1 % P, y1 % P), (x0, y0)))
+                        if len(out) >= limit:
+                            return out
+    return out
